@@ -13,7 +13,7 @@ HC == {"A", "B", "H", "P"}
 CC == {"A", "B", "P"}
 TT == {"A", "B"}
 Reqs == {r \in Requests(N, HC, CC, TT) :
-            r.op = "ValidateHolder" /\ r.sig = "badhtlc" => r.c = "H"}
+            r.op = "ValidateHolder" /\ r.sig \in {"badhtlc", "shorthtlc"} => r.c = "H"}
 
 Weight(st, r) == LET o == Step(st, r, K) IN
                  IF o.s # st THEN 60 ELSE IF o.resp.ok THEN 2 ELSE 1
